@@ -228,7 +228,7 @@ RunLoop(s) == IF s.pc = "done" THEN s ELSE RunLoop(Iterate(s))
 CmpRun(x, y) == RunLoop(Start(x, y))
 
 ----------------------------------------------------------------------------
-(* PART 3.  The term universe (depth <= 2, plus three depth-3 terms that   *)
+(* PART 3.  The term universe (depth <= 2, plus four depth-3 terms that    *)
 (* reach the equal_pairs branch)                                           *)
 
 f3  == Coef(3, << >>)       f12 == Coef(12, << >>)
@@ -267,7 +267,7 @@ v34 == Op("Variable", TC.Variable, <<f3, l4>>)
 v39 == Op("Variable", TC.Variable, <<f3, l9>>)
 v124 == Op("Variable", TC.Variable, <<f12, l4>>)
 Deep == {Op("ExprList", TC.ExprList, <<v34, v34>>), Op("ExprList", TC.ExprList, <<v39, v39>>),
-         Op("ExprList", TC.ExprList, <<v34, v124>>)}
+         Op("ExprList", TC.ExprList, <<v34, v124>>), Op("ExprList", TC.ExprList, <<v124, v34>>)}
 
 RECURSIVE MiOK(_)
 MiOK(t) == /\ (t.k = "mi" => Len(t.ix) \in MILens)
